@@ -20,6 +20,9 @@ def main():
     out = {}
     for key in ids:
         d = os.path.join(VERIF, "seeded", key)
+        if not det[key]["caught_by"]:
+            print(key, "recorded as not caught", flush=True)
+            continue
         assert sh(f"git -C {REPO} status --porcelain").stdout.strip() == "", "repo not clean"
         r = sh(f"git -C {REPO} apply {d}/patch.diff")
         if r.returncode != 0:
